@@ -396,8 +396,10 @@ class Builder:
                 self.costs[line] = s["cost"] = 999.0
                 s["verdict"] = "TIMEOUT"
                 return s
-            if dt > 5 * s["cost"] + 1.0:
-                self.costs[line] = s["cost"] = min(dt, measure(line))      # stale cache entry
+            if dt > 10 * s["cost"] + 2.0:
+                new_cost = min(dt, measure(line))              # stale cache entry (the model changed)
+                print("note: cost of '%s' corrected %.3f -> %.3f" % (line, s["cost"], new_cost))
+                self.costs[line] = s["cost"] = new_cost
                 if max_cost is not None and s["cost"] > max_cost:
                     s["verdict"] = "SKIPPED"
                     return s
@@ -636,9 +638,10 @@ class Builder:
                          skipped=[dict(setup=" ; ".join(s["setup"]), calls=" || ".join(s["calls"]),
                                        verdict=s["verdict"], cost=s["cost"]) for s in drop]))
         path = os.path.join(ROOT, "coq", "menus%s.json" % pp)
-        with open(path, "w") as f:
-            json.dump(doc, f, indent=1)
-            f.write("\n")
+        text = json.dumps(doc, indent=1) + "\n"
+        if not (os.path.exists(path) and open(path).read() == text):
+            with open(path, "w") as f:
+                f.write(text)
         files.append(path)
         self.clean(files)
         self.summary = doc
@@ -939,9 +942,10 @@ def main():
         print("   witness schedule: " + str(b.witness_sched))
         for f in files:
             print("   wrote " + os.path.relpath(f, ROOT))
-    with open(COSTS, "w") as f:
-        json.dump(dict(sorted(costs.items())), f, indent=0)
-        f.write("\n")
+    text = json.dumps(dict(sorted(costs.items())), indent=0) + "\n"
+    if not (os.path.exists(COSTS) and open(COSTS).read() == text):
+        with open(COSTS, "w") as f:
+            f.write(text)
 
 
 if __name__ == "__main__":
